@@ -257,6 +257,8 @@ func pairAlphabets(thorough bool) map[string][]call {
 			add("dm", dmByCodewords(sz.DataCodewords - 1)[4])
 		}
 	}
+	add("az", []byte("Too much for one compact layer 0123456789"), 33, -1)
+	add("az", []byte("abc"), 33, 40)
 	add("dm", nil)
 	add("dm", []byte(Filler("ABCDEFG", 1600)))
 	// Aztec
@@ -282,7 +284,7 @@ func pairAlphabets(thorough bool) map[string][]call {
 			}
 		}
 	}
-	for _, s := range []string{"1234567", "12345670", "12345678", "590123412345", "5901234123457", "0000000", "9999999", "12"} {
+	for _, s := range []string{"1234567", "12345670", "12345678", "590123412345", "5901234123457", "0000000", "9999999", "12", "12345a7", "59012341234x", "1234567B", "x234567"} {
 		add("ean", []byte(s))
 	}
 	for _, s := range []string{"AB", "A1B", "C0123456789-$:/.+D", "A12E", "D9A"} {
@@ -380,7 +382,38 @@ func pairSweep(c *core.Ctx) {
 	c.R.Bound("determinism", fmt.Sprintf("%d short QR / Aztec / PDF417 payloads, each encoded %d times in place", nDet, reps))
 }
 
+// snap: Ops = [a, b]: a is encoded and examined by its family's evaluator, b is encoded, and then
+// the very barcode object returned for a is examined again: it must still satisfy the property.
+func evalSnap(c *core.Ctx, cs *core.Case) {
+	a, e1 := parseCall(cs.Ops[0])
+	b, e2 := parseCall(cs.Ops[1])
+	if e1 != nil || e2 != nil {
+		return
+	}
+	sub := func(k call, reuse any) (fs []core.Finding, last any) {
+		saved := c.R
+		c.R = core.NewReport()
+		c.Last, c.Reuse = nil, reuse
+		Safely(func() { Evaluators[k.fam](c, &core.Case{Fam: k.fam, S: k.s, P: k.p}) })
+		fs, last = c.R.Findings, c.Last
+		c.Reuse = nil
+		c.R = saved
+		return
+	}
+	fa, bcA := sub(a, nil)
+	if len(fa) > 0 || bcA == nil {
+		return // a itself is refused or already faulty: judged by the plain cases
+	}
+	sub(b, nil)
+	c.R.Transitions += 3
+	again, _ := sub(a, bcA)
+	for _, f := range again {
+		c.Fail(f.Prop, cs, "the barcode returned for %s no longer satisfies the property after %s was encoded: %s", a.pretty(), b.pretty(), f.Msg)
+	}
+}
+
 func init() {
+	Evaluators["snap"] = evalSnap
 	Evaluators["pair"] = evalPair
 	Evaluators["det"] = evalDet
 }
@@ -399,6 +432,7 @@ func seqPairs(c *core.Ctx, fams ...string) {
 				}
 				Exec(c, &core.Case{Fam: a.fam, S: a.s, P: a.p})
 				Exec(c, &core.Case{Fam: b.fam, S: b.s, P: b.p})
+				Exec(c, &core.Case{Fam: "snap", Ops: []string{a.String(), b.String()}})
 			}
 		}
 		c.R.Bound("history_pairs_"+fam, fmt.Sprintf("all ordered pairs of %d inputs, second call judged after the first in the same process", len(calls)))
